@@ -35,7 +35,7 @@ func TestVerifC16(t *testing.T) {
 	out := vharness.Open()
 	defer out.Close()
 	rng := vharness.Rng()
-	budget := vharness.Budget(500, 30000)
+	budget := vharness.Budget(500, 10000)
 	U := func(v uint64) vsched.NotifyOp { return vsched.NotifyOp{Kind: "upd", K: 0, V: v} }
 	// the manager starts Active (0); the waiter's view is the source state it waits to leave
 	scenarios := []vsched.NotifyScenario{
